@@ -5,14 +5,26 @@ import Sqfs.Model.FailStop
 namespace Sqfs.FailStop
 
 /-- trace extension by a site that succeeds -/
-def okStep (q : Bool) (t : Trace) (s : Site) : Trace :=
-  { t with msgs := t.msgs ++ says q s, ran := t.ran ++ [s], ops := t.ops ++ emits s }
+def okStep (c : Cfg) (t : Trace) (s : Site) : Trace :=
+  effect c s { t with msgs := t.msgs ++ says c.quiet s, ran := t.ran ++ [s], ops := t.ops ++ emits s }
 
-def okAll (q : Bool) (sites : List Site) (t : Trace) : Trace := sites.foldl (okStep q) t
+def okAll (c : Cfg) (sites : List Site) (t : Trace) : Trace := sites.foldl (okStep c) t
 
 /-- trace extension by a site whose failure is reported -/
-def failAt (q : Bool) (t : Trace) (s : Site) : Trace :=
-  { t with msgs := t.msgs ++ says q s, ran := t.ran ++ [s], failed := some s }
+def failAt (c : Cfg) (t : Trace) (s : Site) : Trace :=
+  { t with msgs := t.msgs ++ says c.quiet s, ran := t.ran ++ [s], failed := some s }
+
+/-! `effect` touches only the working directory and the remembered name -/
+@[simp] theorem effect_ops (c : Cfg) (s : Site) (t : Trace) : (effect c s t).ops = t.ops := by
+  unfold effect; split <;> rfl
+@[simp] theorem effect_ran (c : Cfg) (s : Site) (t : Trace) : (effect c s t).ran = t.ran := by
+  unfold effect; split <;> rfl
+@[simp] theorem effect_msgs (c : Cfg) (s : Site) (t : Trace) : (effect c s t).msgs = t.msgs := by
+  unfold effect; split <;> rfl
+@[simp] theorem effect_failed (c : Cfg) (s : Site) (t : Trace) : (effect c s t).failed = t.failed := by
+  unfold effect; split <;> rfl
+@[simp] theorem effect_swallowed (c : Cfg) (s : Site) (t : Trace) : (effect c s t).swallowed = t.swallowed := by
+  unfold effect; split <;> rfl
 
 /-- no fault among the first `n` script entries -/
 def allFalse (n : Nat) (fs : List Bool) : Prop := ∀ i, i < n → fs.getD i false = false
@@ -89,9 +101,9 @@ theorem firstTrue_some (n : Nat) (fs : List Bool) (k : Nat) :
 /-! ### facts that hold for every variant -/
 
 /-- A phase that succeeds reported no failure. -/
-theorem runSites_true_failed (v : Variant) (q : Bool) :
+theorem runSites_true_failed (v : Variant) (c : Cfg) :
     ∀ (sites : List Site) (skip : Nat) (fs : List Bool) (t : Trace) (fs' : List Bool) (t' : Trace),
-      runSites v q skip sites fs t = (true, fs', t') → t'.failed = t.failed := by
+      runSites v c skip sites fs t = (true, fs', t') → t'.failed = t.failed := by
   intro sites
   induction sites with
   | nil => intro skip fs t fs' t' h; cases skip <;> simp [runSites] at h <;> rw [← h.2]
@@ -108,9 +120,9 @@ theorem runSites_true_failed (v : Variant) (q : Bool) :
       · have := ih _ _ _ _ _ h; simpa using this
 
 /-- A phase that fails reports one of its own sites. -/
-theorem runSites_false_failed (v : Variant) (q : Bool) :
+theorem runSites_false_failed (v : Variant) (c : Cfg) :
     ∀ (sites : List Site) (skip : Nat) (fs : List Bool) (t : Trace) (fs' : List Bool) (t' : Trace),
-      runSites v q skip sites fs t = (false, fs', t') → ∃ s, s ∈ sites ∧ t'.failed = some s := by
+      runSites v c skip sites fs t = (false, fs', t') → ∃ s, s ∈ sites ∧ t'.failed = some s := by
   intro sites
   induction sites with
   | nil => intro skip fs t fs' t' h; cases skip <;> simp [runSites] at h
@@ -133,9 +145,9 @@ theorem runSites_false_failed (v : Variant) (q : Bool) :
         exact ⟨x, List.mem_cons_of_mem _ hx, hf⟩
 
 /-- Without a fault in reach the walk is the fault-free walk (every variant). -/
-theorem runSites_clean (v : Variant) (q : Bool) :
+theorem runSites_clean (v : Variant) (c : Cfg) :
     ∀ (sites : List Site) (fs : List Bool) (t : Trace), allFalse sites.length fs →
-      runSites v q 0 sites fs t = (true, fs.drop sites.length, okAll q sites t) := by
+      runSites v c 0 sites fs t = (true, fs.drop sites.length, okAll c sites t) := by
   intro sites
   induction sites with
   | nil => intro fs t _; simp [runSites, okAll]
@@ -160,13 +172,17 @@ def AllChecked (v : Variant) : Prop := ∀ s, reaction v s = .abort
 theorem fixed_allChecked : AllChecked Variant.fixed := by
   intro s; cases s <;> simp [reaction, Variant.fixed]
 
+/-- /repo as it is: the three result-checking repairs are in. -/
+theorem current_allChecked : AllChecked Variant.current := by
+  intro s; cases s <;> simp [reaction, Variant.current]
+
 /-- Complete description of a walk when every result is checked. -/
-theorem runSites_checked {v : Variant} (hA : AllChecked v) (q : Bool) :
+theorem runSites_checked {v : Variant} (hA : AllChecked v) (c : Cfg) :
     ∀ (sites : List Site) (fs : List Bool) (t : Trace),
-      runSites v q 0 sites fs t =
+      runSites v c 0 sites fs t =
         match firstTrue sites.length fs with
-        | none => (true, fs.drop sites.length, okAll q sites t)
-        | some k => (false, fs.drop (k + 1), failAt q (okAll q (sites.take k) t) (sites.getD k default)) := by
+        | none => (true, fs.drop sites.length, okAll c sites t)
+        | some k => (false, fs.drop (k + 1), failAt c (okAll c (sites.take k) t) (sites.getD k default)) := by
   intro sites
   induction sites with
   | nil => intro fs t; simp [runSites, firstTrue, okAll]
@@ -192,11 +208,11 @@ theorem runSites_checked {v : Variant} (hA : AllChecked v) (q : Bool) :
         | some k => simp [okAll, okStep]
 
 /-- Sequential composition of phases when every result is checked. -/
-theorem runSites_checked_append {v : Variant} (hA : AllChecked v) (q : Bool) :
+theorem runSites_checked_append {v : Variant} (hA : AllChecked v) (c : Cfg) :
     ∀ (a b : List Site) (fs : List Bool) (t : Trace),
-      runSites v q 0 (a ++ b) fs t =
-        match runSites v q 0 a fs t with
-        | (true, fs', t') => runSites v q 0 b fs' t'
+      runSites v c 0 (a ++ b) fs t =
+        match runSites v c 0 a fs t with
+        | (true, fs', t') => runSites v c 0 b fs' t'
         | r => r := by
   intro a
   induction a with
@@ -208,24 +224,24 @@ theorem runSites_checked_append {v : Variant} (hA : AllChecked v) (q : Bool) :
     · rfl
     · exact ih b _ _
 
-theorem okAll_ops (q : Bool) (sites : List Site) (t : Trace) :
-    (okAll q sites t).ops = t.ops ++ sites.flatMap emits := by
+theorem okAll_ops (c : Cfg) (sites : List Site) (t : Trace) :
+    (okAll c sites t).ops = t.ops ++ sites.flatMap emits := by
   induction sites generalizing t with
   | nil => simp [okAll]
   | cons s rest ih =>
     simp only [okAll, List.foldl_cons, List.flatMap_cons] at *
     rw [ih]; simp [okStep, List.append_assoc]
 
-theorem okAll_ran (q : Bool) (sites : List Site) (t : Trace) :
-    (okAll q sites t).ran = t.ran ++ sites := by
+theorem okAll_ran (c : Cfg) (sites : List Site) (t : Trace) :
+    (okAll c sites t).ran = t.ran ++ sites := by
   induction sites generalizing t with
   | nil => simp [okAll]
   | cons s rest ih =>
     simp only [okAll, List.foldl_cons] at *
     rw [ih]; simp [okStep]
 
-theorem okAll_failed (q : Bool) (sites : List Site) (t : Trace) :
-    (okAll q sites t).failed = t.failed := by
+theorem okAll_failed (c : Cfg) (sites : List Site) (t : Trace) :
+    (okAll c sites t).failed = t.failed := by
   induction sites generalizing t with
   | nil => simp [okAll]
   | cons s rest ih =>
@@ -236,5 +252,135 @@ theorem take_succ_getD {α : Type} (P : List α) (k : Nat) (d : α) (hk : k < P.
     P.take (k + 1) = P.take k ++ [P.getD k d] := by
   rw [List.take_add_one]
   simp [List.getD_eq_getElem?_getD, List.getElem?_eq_getElem hk]
+
+/-! ### the working directory and the remembered output name -/
+
+theorem effect_absName (c : Cfg) (s : Site) (t : Trace) : t.absName = true → (effect c s t).absName = true := by
+  intro h; unfold effect; split <;> simp [h]
+
+theorem effect_cwd (c : Cfg) (s : Site) (t : Trace) : s ≠ .chdirPack → (effect c s t).cwd = t.cwd := by
+  intro h; unfold effect; split <;> simp_all
+
+/-- Once `main` holds the absolute output name it keeps it (every variant, every phase, every script). -/
+theorem runSites_absName (v : Variant) (c : Cfg) :
+    ∀ (sites : List Site) (skip : Nat) (fs : List Bool) (t : Trace) (ok : Bool) (fs' : List Bool) (t' : Trace),
+      runSites v c skip sites fs t = (ok, fs', t') → t.absName = true → t'.absName = true := by
+  intro sites
+  induction sites with
+  | nil => intro skip fs t ok fs' t' h ha; cases skip <;> simp [runSites] at h <;> rw [← h.2.2] <;> exact ha
+  | cons s rest ih =>
+    intro skip fs t ok fs' t' h ha
+    cases skip with
+    | succ k => simp only [runSites] at h; exact ih k fs t ok fs' t' h ha
+    | zero =>
+      simp only [runSites] at h
+      split at h
+      · split at h
+        · simp only [Prod.mk.injEq] at h
+          rw [← h.2.2]; exact ha
+        · exact ih _ _ _ _ _ _ h ha
+      · exact ih _ _ _ _ _ _ h (effect_absName _ _ _ ha)
+
+/-- A phase that does not contain `chdir(opt->packdir)` leaves the process where it is. -/
+theorem runSites_cwd (v : Variant) (c : Cfg) :
+    ∀ (sites : List Site) (skip : Nat) (fs : List Bool) (t : Trace) (ok : Bool) (fs' : List Bool) (t' : Trace),
+      Site.chdirPack ∉ sites → runSites v c skip sites fs t = (ok, fs', t') → t'.cwd = t.cwd := by
+  intro sites
+  induction sites with
+  | nil => intro skip fs t ok fs' t' _ h; cases skip <;> simp [runSites] at h <;> rw [← h.2.2]
+  | cons s rest ih =>
+    intro skip fs t ok fs' t' hm h
+    have hs : s ≠ .chdirPack := fun e => hm (by simp [e])
+    have hr : Site.chdirPack ∉ rest := fun e => hm (List.mem_cons_of_mem _ e)
+    cases skip with
+    | succ k => simp only [runSites] at h; exact ih k fs t ok fs' t' hr h
+    | zero =>
+      simp only [runSites] at h
+      split at h
+      · split at h
+        · simp only [Prod.mk.injEq] at h
+          rw [← h.2.2]
+        · have := ih _ _ _ _ _ _ hr h; simpa using this
+      · have := ih _ _ _ _ _ _ hr h
+        rw [this, effect_cwd _ _ _ hs]
+
+theorem chdirPack_not_mem_packSites (b : Bool) : ∀ (n i : Nat), Site.chdirPack ∉ packSites b n i := by
+  intro n
+  induction n with
+  | zero => intro i; simp [packSites]
+  | succ n ih => intro i; cases b <;> simp [packSites, ih]
+
+theorem chdirPack_not_mem_tarSites : ∀ (es : List TarEnt) (i : Nat), Site.chdirPack ∉ tarSites es i := by
+  intro es
+  induction es with
+  | nil => intro i; simp [tarSites]
+  | cons e rest ih =>
+    intro i
+    have := ih (i + 1)
+    cases e.link <;> cases e.skipped <;> simp [tarSites, this]
+
+theorem chdirPack_not_mem_pre (c : Cfg) : Site.chdirPack ∉ preSites c := by
+  unfold preSites; split <;> simp
+
+theorem chdirPack_not_mem_init (c : Cfg) : Site.chdirPack ∉ initSites c := by
+  unfold initSites; cases c.noXattr <;> simp
+
+theorem chdirPack_not_mem_finish (c : Cfg) : Site.chdirPack ∉ finishSites c := by
+  unfold finishSites; cases c.noXattr <;> cases c.exportable <;> simp
+
+/-- Without a pack directory `pack_files` does not change directory at all. -/
+theorem chdirPack_not_mem_body (v : Variant) (c : Cfg) : c.packDir = false → Site.chdirPack ∉ bodySites v c := by
+  intro h
+  unfold bodySites
+  split
+  · have h1 := chdirPack_not_mem_packSites true c.nfiles 0
+    have h2 := chdirPack_not_mem_packSites false c.nfiles 0
+    cases c.selinux <;> cases c.xattrFile <;> cases c.sortFile <;> cases c.packFile <;> simp_all
+  · have := chdirPack_not_mem_tarSites c.entries 0
+    simp_all
+
+/-- the name handed to `unlink` designates the output file: it is absolute, or was made absolute, or the process
+    never left the directory it started in -/
+def Safe (t : Trace) : Prop := t.absName = true ∨ t.cwd = .start
+
+theorem nameResolves_of_safe (c : Cfg) (t : Trace) : Safe t → nameResolves c t = true := by
+  intro h
+  unfold nameResolves
+  rcases h with h | h <;> simp [h]
+
+/-- a phase without `chdir` keeps the name valid -/
+theorem safe_phase (v : Variant) (c : Cfg) (sites : List Site) (fs : List Bool) (t : Trace) (ok : Bool) (fs' : List Bool)
+    (t' : Trace) (hm : Site.chdirPack ∉ sites) (h : runSites v c 0 sites fs t = (ok, fs', t')) : Safe t → Safe t' := by
+  intro hs
+  rcases hs with hs | hs
+  · exact Or.inl (runSites_absName v c _ _ _ _ _ _ _ h hs)
+  · exact Or.inr (by rw [runSites_cwd v c _ _ _ _ _ _ _ hm h]; exact hs)
+
+/-- the body of the *repaired* `main`: the output name is made absolute before `pack_files` changes directory -/
+theorem safe_body_fixed (c : Cfg) (fs : List Bool) (t : Trace) (ok : Bool) (fs' : List Bool) (t' : Trace)
+    (h : runSites .fixed c 0 (bodySites .fixed c) fs t = (ok, fs', t')) : Safe t → Safe t' := by
+  intro hs
+  cases hp : c.packDir with
+  | false => exact safe_phase _ _ _ _ _ _ _ _ (chdirPack_not_mem_body _ _ hp) h hs
+  | true =>
+    cases ht : c.tool with
+    | tar2sqfs =>
+      refine safe_phase _ _ _ _ _ _ _ _ ?_ h hs
+      have := chdirPack_not_mem_tarSites c.entries 0
+      simp [bodySites, ht, this]
+    | gensquashfs =>
+      simp only [bodySites, ht, hp, Variant.fixed, Bool.and_self, if_true, List.cons_append,
+        List.nil_append] at h
+      simp only [runSites] at h
+      split at h
+      · -- realpath failed: `goto out` from where the process started
+        simp only [reaction] at h
+        simp only [Prod.mk.injEq] at h
+        rw [← h.2.2]
+        rcases hs with hs | hs
+        · exact Or.inl hs
+        · exact Or.inr hs
+      · exact Or.inl (runSites_absName _ _ _ _ _ _ _ _ _ h (by simp [effect]))
+
 
 end Sqfs.FailStop
